@@ -148,7 +148,18 @@ pub fn render_module(scn: &Scenario, idx: usize) -> String {
             }
         }
     }
-    out.push_str(&format!("let v{idx} = {{ {} }};\n", props.join(", ")));
+    let decl = format!("let v{idx} = {{ {} }};\n", props.join(", "));
+    // The grammar allows `use` anywhere at top level: in modules with an odd number of
+    // imports the declaration comes first, or sits between the `use` lines.
+    if m.imports.len() % 2 == 1 {
+        let lines: Vec<&str> = out.split_inclusive('\n').collect();
+        let k = (m.imports.len() / 2).min(lines.len());
+        let mut t: String = lines[..k].concat();
+        t.push_str(&decl);
+        t.push_str(&lines[k..].concat());
+        return t;
+    }
+    out.push_str(&decl);
     out
 }
 
